@@ -95,6 +95,24 @@ class Ctx:
         return self.ob(rule, func, False, what, func=func, file=file, construct=construct, node=node, detail=detail, fail=what)
 
     # -- output -----------------------------------------------------------------------
+    def import_rules(self, mod, label: str):
+        """Re-run another property's obligations inside this check, as premises of this property: their findings are reported under this
+        property with the rule id `<this>.<label>/<theirs>` (nothing is assumed from the other check's last run)."""
+        sub = Ctx(self.prop, self.prog, tier=self.tier, seed=self.seed, write=False)
+        mod.run(sub)
+        sub.check_minima()
+        for o in sub.obligations:
+            o2 = dict(o)
+            o2["rule"] = f"{self.prop}.{label}/" + o2["rule"]
+            self.obligations.append(o2)
+        for f in sub.findings:
+            f.rule = f"{self.prop}.{label}/" + f.rule
+            self.findings.append(f)
+        for q in sub.analysed["functions"]:
+            if q not in self.analysed["functions"]:
+                self.analysed["functions"].append(q)
+        self.count(f"imported_{label}", len(sub.obligations))
+
     def check_minima(self):
         """Evaluated at the end: with no finding, a rule that matched fewer sites than confirmed is exit 2."""
         if self.findings:
@@ -153,6 +171,7 @@ class Ctx:
                     "analysed": self.analysed,
                     "obligation_list": self.obligations,
                     "source_digest": self.prog.digest(),
+                    "renamed_private_names": getattr(self.prog, "renamed", {}),
                     "findings_new": [f.to_json() for f in new],
                     "findings_known": [f.to_json() for f in listed],
                     **self.extra,
@@ -166,6 +185,9 @@ class Ctx:
                 json.dump(ev, fh, indent=1, default=str)
         _print(f"[{self.prop}] tier={self.tier} obligations={n_ob} discharged={n_ok} "
               f"functions={len(self.analysed['functions'])} wall={wall}s")
+        if getattr(self.prog, "renamed", None):
+            _print("  private names read as their reference names (consistent rename, sa/names.py): "
+                   + ", ".join(f"{k} -> {v}" for k, v in sorted(self.prog.renamed.items())))
         for name, n in sorted(self.counts.items()):
             mn = self.minima.get(name)
             _print(f"  instances {name}: {n}" + (f" (min {mn})" if mn is not None else ""))
